@@ -29,6 +29,9 @@ def build(variant=None):
     if variant == 'c13pair':
         from . import c13
         c13.register_c13_pair(reg)
+    if variant == 'c08':
+        from . import cli
+        cli.register_c08(reg)
     if variant == 'c12':
         from . import bulk
         bulk.register_c12(reg)
